@@ -92,7 +92,7 @@ func (rc *redCtx) reduced(t *T) (bool, string) {
 		}
 	case "ext":
 		// first result of Pop
-		if t.C == 1 && t.A[0].Op == "call" && c.a.Pop != nil && t.A[0].S == c.a.Pop.String() {
+		if t.C == 1 && t.A[0].Op == "call" && c.a.Pop != nil && t.A[0].S == fnKey(c.a.Pop) {
 			return true, "popped program counter (I2)"
 		}
 	}
@@ -218,6 +218,9 @@ func ruleModStore(w *World, r *RuleResult) {
 		for _, p := range paths {
 			for i := range p.Events {
 				e := &p.Events[i]
+				if e.Kind == "builtin" && (e.Method == "copy" || e.Method == "append") && len(e.Args) > 0 && e.Args[0].contains(func(x *T) bool { return c.isRecvField(x, c.a.MemField) }) {
+					r.undecided(fn.Name()+"/bulk-"+e.Method, c.posOf(e), "the core is written through "+e.Method+"(): the per-cell rules (index reduced, wrap-around at the end of the core, field ranges) cannot be decided for a bulk write")
+				}
 				if e.Kind != "store" {
 					continue
 				}
